@@ -1,3 +1,246 @@
-import AdaVerif.Lemmas.Guard
+import AdaVerif.Lemmas.AggEditors
+import AdaVerif.Lemmas.AggSpec
+/-
+C07 — the single-buffer URL stays structurally consistent.
+
+`Model/Agg.lean` transcribes the buffer-and-offsets representation of `ada::url_aggregator` and its
+in-place editors statement by statement; `Model/AggLayout.lean` is the 15-line serialiser `layout`
+(content ↦ buffer with offsets).  `Shape a` ("a is the layout of some content") is exactly "the
+offsets partition the buffer".  Proved here, for all contents and all inputs:
+
+* T1  on a laid-out URL every getter returns its component, the href size is the buffer length and
+      re-assembling the getters (with the presence predicates) reproduces the href;
+* T2  every editor commutes with `layout`: editing in place = laying out the edited content, so
+      `Shape` is preserved and the abstract content changes exactly as the editor's name says;
+* T3  the `uint32_t` wrap-around arithmetic of the editors is the integer arithmetic of the model
+      while buffers stay below 2^32 bytes;
+* T4  any finite history of editor calls whose preconditions hold stays in `Shape` and computes the
+      layout of the corresponding history on contents.
+
+Tie to the code: checks/props/c07.py calls each real editor (through -fno-access-control) and the
+model editor on the implementation's own state and compares buffer + offsets (L1), and evaluates
+`Shape`/re-assembly/validate() on every state of public-API histories (L2/L3).
+-/
 namespace AdaVerif.Props.C07
+open AdaVerif AdaVerif.Model.Agg AdaVerif.Lemmas.AggL
+
+/-- the offsets partition the buffer -/
+def Shape (a : Agg) : Prop := ∃ l : L, a = layout l
+
+/-- the invariants the editors rely on silently -/
+structure Wf (l : L) : Prop where
+  noAuth : NoAuthNoCred l
+  dashDot : DashDotOk l
+  tail : TailNoAt l
+
+instance (l : L) : Decidable (NoAuthNoCred l) := by unfold NoAuthNoCred; infer_instance
+instance (l : L) : Decidable (DashDotOk l) := by unfold DashDotOk; infer_instance
+instance (l : L) : Decidable (TailNoAt l) := by unfold TailNoAt; infer_instance
+/-- the executable form of `Wf` (evaluated by the driver on the implementation's states) -/
+def wfB (l : L) : Bool := decide (NoAuthNoCred l) && decide (DashDotOk l) && decide (TailNoAt l)
+theorem wf_of_wfB (l : L) (h : wfB l = true) : Wf l := by
+  simp only [wfB, Bool.and_eq_true, decide_eq_true_eq] at h
+  exact ⟨h.1.1, h.1.2, h.2⟩
+
+/-! ### T1 — getters, size, re-assembly -/
+
+theorem getProtocol_layout (l : L) : getProtocol (layout l) = l.scheme := by
+  simp [getProtocol, slice, layout, List.append_assoc, take_peel0]
+
+theorem getPathname_layout (l : L) : getPathname (layout l) = l.path := by
+  unfold getPathname
+  rw [pathnameLength_layout, buf_path, ps_eq]
+  simp [slice, take_peel, take_peel0, drop_peel0]
+
+theorem getSearch_layout (l : L) : getSearch (layout l) = match l.query with | some (c :: q) => 0x3F :: c :: q | _ => [] := by
+  cases hq : l.query with
+  | none => simp [getSearch, layout, hq]
+  | some q =>
+    cases hf : l.frag <;> cases q <;>
+      simp [getSearch, layout, hq, hf, queryS, fragS, slice, List.append_assoc, Nat.add_assoc, take_peel, drop_peel, take_peel0,
+        drop_peel0] <;> omega
+
+theorem getHash_layout (l : L) : getHash (layout l) = match l.frag with | some (c :: f) => 0x23 :: c :: f | _ => [] := by
+  cases hf : l.frag with
+  | none => simp [getHash, layout, hf]
+  | some f =>
+    cases f <;> simp [getHash, layout, hf, fragS, List.append_assoc, Nat.add_assoc, drop_peel, drop_peel0] <;> omega
+
+theorem hrefSize_layout (l : L) : (layout l).buf.length =
+    l.scheme.length + (authS l.auth).length + l.user.length + (passS l.pass).length + (atS l.user l.pass).length + l.host.length +
+      (portS l.port).length + (ddS l.dashdot).length + l.path.length + (queryS l.query).length + (fragS l.frag).length := by
+  simp [layout]; omega
+
+/-- re-assembly: the href is the concatenation of the pieces the offsets delimit (what the serialiser
+    of the Standard produces from the components, with the lone "?"/"#" kept) -/
+theorem reassemble (l : L) : (layout l).buf =
+    getProtocol (layout l) ++ authS l.auth ++ l.user ++ passS l.pass ++ atS l.user l.pass ++ l.host ++ portS l.port ++
+      ddS l.dashdot ++ getPathname (layout l) ++ queryS l.query ++ fragS l.frag := by
+  rw [getProtocol_layout, getPathname_layout]; rfl
+
+/-! ### T2 — every editor preserves Shape and edits exactly its component -/
+
+theorem editors_commute (l : L) (w : Wf l) (x : Bytes) (p : Nat) (digits : Bytes) :
+    clearHash (layout l) = layout { l with frag := none } ∧
+    updateBaseHash (layout l) x = layout { l with frag := some x } ∧
+    clearSearch (layout l) = layout { l with query := none } ∧
+    updateBaseSearch (layout l) x = layout { l with query := some x } ∧
+    (l.dashdot = false → clearPort (layout l) = layout { l with port := none }) ∧
+    (l.dashdot = false → updateBasePort (layout l) p digits = layout { l with port := some (p, digits) }) ∧
+    addAuthoritySlashes (layout l) = layout { l with auth := true } ∧
+    updateBaseHostname (layout l) x = layout { l with auth := true, host := x } ∧
+    updateBaseUsername (layout l) x = layout { l with auth := true, user := x } ∧
+    updateBasePassword (layout l) x = layout { l with auth := true, pass := x } ∧
+    updateBasePathname (layout l) x = layout { l with dashdot := newDashDot l x, path := x } ∧
+    (l.scheme ≠ [] → setScheme (layout l) x = layout { l with scheme := x ++ [0x3A] }) ∧
+    (l.auth = true → clearHostname (layout l) = layout { l with host := [] }) :=
+  ⟨clearHash_layout l, updateBaseHash_layout l x, clearSearch_layout l, updateBaseSearch_layout l x,
+   clearPort_layout l, updateBasePort_layout l p digits, addAuthoritySlashes_layout l w.noAuth,
+   updateBaseHostname_layout l x w.noAuth, updateBaseUsername_layout l x w.noAuth w.tail,
+   updateBasePassword_layout l x w.noAuth w.tail, updateBasePathname_layout l x w.noAuth w.dashDot,
+   setScheme_layout l x,
+   fun ha => (clearHostname_layout l w.noAuth w.tail).resolve_right (by simp [ha])⟩
+
+/-- the appending editors of the parser's authority and path states, and the scheme setter that takes
+    the colon with it -/
+theorem parser_editors_commute (l : L) (w : Wf l) (x : Bytes) :
+    appendBasePathname (layout l) x = layout { l with path := l.path ++ x } ∧
+    (x ≠ [] → l.auth = true → appendBasePassword (layout l) x = layout { l with pass := l.pass ++ x }) ∧
+    (x ≠ [] → l.auth = true → x.length ≠ (atS l.user l.pass).length + l.host.length →
+      appendBaseUsername (layout l) x = layout { l with user := l.user ++ x }) ∧
+    (l.scheme ≠ [] → setSchemeWithColon (layout l) x = layout { l with scheme := x }) :=
+  ⟨appendBasePathname_layout l x, fun hx ha => appendBasePassword_auth l x hx ha w.tail,
+   fun hx ha hq => appendBaseUsername_auth l x hx ha w.tail hq, setSchemeWithColon_layout l x⟩
+
+/-! ### T3 — wrap-around arithmetic -/
+theorem offsets_uint32 (o : Nat) (d : Int) (ho : o < 2 ^ 32) (h0 : 0 ≤ (o : Int) + d) (h1 : (o : Int) + d < 2 ^ 32) :
+    (((o : Int) + d % 2 ^ 32) % 2 ^ 32).toNat = shift o d := shift_uint32 o d ho h0 h1
+
+theorem replaceAndResize_all_branches (b x : Bytes) (start stop : Nat) (h1 : start ≤ stop) (h2 : stop ≤ b.length) :
+    replaceAndResize b start stop x = (b.take start ++ (x ++ b.drop stop), (x.length : Int) - ((stop - start : Nat) : Int)) :=
+  replaceAndResize_eq b x start stop h1 h2
+
+/-! ### T4 — histories of editor calls -/
+
+inductive Op
+  | clearHash | setHash (x : Bytes) | clearSearch | setSearch (x : Bytes)
+  | clearPort | setPort (p : Nat) (digits : Bytes)
+  | setHostname (x : Bytes) | setUsername (x : Bytes) | setPassword (x : Bytes) | setPathname (x : Bytes)
+  | setScheme (x : Bytes)
+deriving DecidableEq, Repr
+
+def applyA (a : Agg) : Op → Agg
+  | .clearHash => Model.Agg.clearHash a
+  | .setHash x => updateBaseHash a x
+  | .clearSearch => Model.Agg.clearSearch a
+  | .setSearch x => updateBaseSearch a x
+  | .clearPort => Model.Agg.clearPort a
+  | .setPort p d => updateBasePort a p d
+  | .setHostname x => updateBaseHostname a x
+  | .setUsername x => updateBaseUsername a x
+  | .setPassword x => updateBasePassword a x
+  | .setPathname x => updateBasePathname a x
+  | .setScheme x => Model.Agg.setScheme a x
+
+def applyL (l : L) : Op → L
+  | .clearHash => { l with frag := none }
+  | .setHash x => { l with frag := some x }
+  | .clearSearch => { l with query := none }
+  | .setSearch x => { l with query := some x }
+  | .clearPort => { l with port := none }
+  | .setPort p d => { l with port := some (p, d) }
+  | .setHostname x => { l with auth := true, host := x }
+  | .setUsername x => { l with auth := true, user := x }
+  | .setPassword x => { l with auth := true, pass := x }
+  | .setPathname x => { l with dashdot := newDashDot l x, path := x }
+  | .setScheme x => { l with scheme := x ++ [0x3A] }
+
+/-- the (decidable) precondition of one call: what the C++ call sites guarantee -/
+def Pre (l : L) : Op → Prop
+  | .clearPort => l.dashdot = false
+  | .setPort _ _ => l.dashdot = false
+  | .setScheme _ => l.scheme ≠ []
+  | _ => True
+
+theorem step_commutes (l : L) (w : Wf l) (op : Op) (hp : Pre l op) : applyA (layout l) op = layout (applyL l op) := by
+  have e := editors_commute l w
+  cases op with
+  | clearHash => exact (e [] 0 []).1
+  | setHash x => exact (e x 0 []).2.1
+  | clearSearch => exact (e [] 0 []).2.2.1
+  | setSearch x => exact (e x 0 []).2.2.2.1
+  | clearPort => exact (e [] 0 []).2.2.2.2.1 hp
+  | setPort p d => exact (e [] p d).2.2.2.2.2.1 hp
+  | setHostname x => exact (e x 0 []).2.2.2.2.2.2.2.1
+  | setUsername x => exact (e x 0 []).2.2.2.2.2.2.2.2.1
+  | setPassword x => exact (e x 0 []).2.2.2.2.2.2.2.2.2.1
+  | setPathname x => exact (e x 0 []).2.2.2.2.2.2.2.2.2.2.1
+  | setScheme x => exact (e x 0 []).2.2.2.2.2.2.2.2.2.2.2.1 hp
+
+/-- a history is admissible when every state it passes through satisfies the silent invariants and
+    every call its precondition (both decidable, both evaluated on the implementation's states by the
+    correspondence check) -/
+def Admissible : L → List Op → Prop
+  | _, [] => True
+  | l, op :: rest => Wf l ∧ Pre l op ∧ Admissible (applyL l op) rest
+
+/-- T4: every admissible history keeps the offsets partitioning the buffer, and computes the layout
+    of the same history on contents -/
+theorem history_commutes (l : L) (ops : List Op) (h : Admissible l ops) :
+    ops.foldl applyA (layout l) = layout (ops.foldl applyL l) := by
+  induction ops generalizing l with
+  | nil => rfl
+  | cons op rest ih =>
+    obtain ⟨w, hp, hr⟩ := h
+    simp only [List.foldl_cons]
+    rw [step_commutes l w op hp]
+    exact ih _ hr
+
+theorem history_shape (l : L) (ops : List Op) (h : Admissible l ops) : Shape (ops.foldl applyA (layout l)) :=
+  ⟨_, history_commutes l ops h⟩
+
+/-! ### T5 — the bridge to the Standard's record (Spec/Url.lean, Spec/Setters.lean) -/
+
+/-- the URL serializer of the Standard is the laid-out buffer of the record's content -/
+theorem standard_href_is_layout (u : Spec.Url) (ok : HostlessOk u) : u.href = (layout (ofUrl u)).buf :=
+  href_eq_layout u ok
+
+/-- for the component setters, editing the buffer in place yields the serialisation of the Standard's
+    setter result (user name, password, non-empty query and fragment, clearing them on non-opaque URLs) -/
+theorem setters_refine_standard (u : Spec.Url) (v : Bytes) :
+    (u.cannotHaveUsernamePasswordPort = false → TailNoAt (ofUrl u) →
+      layout (ofUrl (Spec.setUsername u v)) = updateBaseUsername (layout (ofUrl u)) (Spec.percentEncode Spec.inUserinfo v)) ∧
+    (u.cannotHaveUsernamePasswordPort = false → TailNoAt (ofUrl u) →
+      layout (ofUrl (Spec.setPassword u v)) = updateBasePassword (layout (ofUrl u)) (Spec.percentEncode Spec.inUserinfo v)) ∧
+    (v ≠ [] → layout (ofUrl (Spec.setSearch u v)) = updateBaseSearch (layout (ofUrl u))
+      (Spec.encodeQuery u.isSpecial (Spec.stripTN (dropOne 0x3F v)))) ∧
+    (v ≠ [] → layout (ofUrl (Spec.setHash u v)) = updateBaseHash (layout (ofUrl u))
+      (Spec.percentEncode Spec.inFragment (Spec.stripTN (dropOne 0x23 v)))) ∧
+    (u.isOpaque = false → layout (ofUrl (Spec.setSearch u [])) = Model.Agg.clearSearch (layout (ofUrl u))) ∧
+    (u.isOpaque = false → layout (ofUrl (Spec.setHash u [])) = Model.Agg.clearHash (layout (ofUrl u))) :=
+  ⟨setUsername_refines u v, setPassword_refines u v, setSearch_refines u v, setHash_refines u v,
+   clearSearch_refines u, clearHash_refines u⟩
+
+/-! ### non-vacuity -/
+def exL : L := { scheme := ofStr "https:", auth := true, user := ofStr "u", pass := [], host := ofStr "h.test",
+                 port := some (8080, ofStr "8080"), dashdot := false, path := ofStr "/p", query := some (ofStr "q"), frag := none }
+
+example : (layout exL).buf = ofStr "https://u@h.test:8080/p?q" := by decide +kernel
+def exOps : List Op := [.setPassword (ofStr "pw"), .setUsername [], .clearPort, .setPathname (ofStr "//x"), .setHash (ofStr "f")]
+/-- executable admissibility -/
+def admissibleB : L → List Op → Bool
+  | _, [] => true
+  | l, op :: rest => wfB l && (match op with
+      | .clearPort => !l.dashdot | .setPort _ _ => !l.dashdot | .setScheme _ => !l.scheme.isEmpty | _ => true) &&
+      admissibleB (applyL l op) rest
+theorem admissible_of_B (l : L) (ops : List Op) (h : admissibleB l ops = true) : Admissible l ops := by
+  induction ops generalizing l with
+  | nil => trivial
+  | cons op rest ih =>
+    simp only [admissibleB, Bool.and_eq_true] at h
+    refine ⟨wf_of_wfB l h.1.1, ?_, ih _ h.2⟩
+    cases op <;> simp_all [Pre]
+example : Admissible exL exOps := admissible_of_B _ _ (by decide +kernel)
+example : (exOps.foldl applyA (layout exL)).buf = ofStr "https://:pw@h.test//x?q#f" := by decide +kernel
+
 end AdaVerif.Props.C07
